@@ -135,6 +135,11 @@ def scenarios():
            {("/shared/dir/top", "data"): E["n_top"], ("/shared/dir/leaf_a", "data"): E["n_leaf_a"], ("/shared/dir/leaf_b", "data"): E["n_leaf_b"], ("/shared/dir/mid", "data"): E["n_mid"]}),
         SC("nested-keep-top-leaf-present", [k("/shared/dir/leaf_a", "n_leaf_a")], k("/top2", "n_top"), {("/shared/dir/leaf_a", "data"): [E["n_leaf_a"]]},
            {("/top2", "data"): E["n_top"], ("/shared/dir/leaf_a", "data"): E["n_leaf_a"], ("/shared/dir/leaf_b", "data"): E["n_leaf_b"], ("/shared/dir/mid", "data"): E["n_mid"]}),
+        # path names with dots, next to a path that is the part before the first dot (what a temporary name is made from)
+        SC("keep-dotted-name-next-to-its-stem", [k("/c6/stats", "s_text"), k("/c6/model.v2", "s_bytes")], k("/c6/stats.json", "s_obj"), {("/c6/stats", "data"): [E["s_text"]], ("/c6/model.v2", "data"): [E["s_bytes"]]},
+           {("/c6/stats", "data"): E["s_text"], ("/c6/model.v2", "data"): E["s_bytes"], ("/c6/stats.json", "data"): E["s_obj"]}),
+        SC("rekeep-dotted-name-next-to-its-stem", [k("/c6/model", "s_text"), k("/c6/model.v2", "s_text")], k("/c6/model.v2", "s_text_v2"), {("/c6/model", "data"): [E["s_text"]], ("/c6/model.v2", "data"): [E["s_text"]]},
+           {("/c6/model", "data"): E["s_text"], ("/c6/model.v2", "data"): E["s_text_v2"]}),
         # a table of more than a million rows (a writer may split such a table into several files)
         SC("cold-first-keep-large-frame-parquet", [], k("/c6/bigframe", "s_big_frame"), {}, {("/c6/bigframe", "data"): scen.big_frame_value()}),
     ]
